@@ -144,6 +144,9 @@ def gen_tasks(tier, seed):
     # antichain (z3)
     for name, es in dags:
         wfs = [None, {e: rng.choice((0, 1, 2, 5)) for e in es}, {e: 0 for e in es}, {e: rng.choice((1, 2 ** 31)) for e in es}]
+        wfs += [{e: rng.choice((0, 1)) for e in es} for _ in range(4)] + [{e: rng.choice((0, 0, 1, 3)) for e in es} for _ in range(2)]
+        if name in F.CURATED_DAGS and len(es) <= (6 if tier == "quick" else 8):
+            wfs += [dict(zip(es, bits)) for bits in itertools.product((0, 1), repeat=len(es))]
         for wf in wfs:
             tasks.append({"kind": "antichain", "name": name, "edges": es, "wf": None if wf is None else [[list(e), w] for e, w in wf.items()]})
     # bottleneck peeling (concrete evaluation per enumerated flow)
